@@ -169,6 +169,25 @@ def expected(decl):
     return app, syn, sections
 
 
+def _tokens(line, start=0, merge_metavar=False):
+    """whitespace-separated tokens of line[start:] with their end columns; in the synopsis a
+    spelling and its <METAVAR> are one unbreakable unit ('[-s <MV>', '--name <MV>]')"""
+    toks = [(m.group(0), m.end()) for m in re.finditer(r"\S+", line[start:])]
+    toks = [(t, e + start) for t, e in toks]
+    if not merge_metavar:
+        return toks
+    out = []
+    i = 0
+    while i < len(toks):
+        t, e = toks[i]
+        if i + 1 < len(toks) and toks[i + 1][0].startswith("<") and (t.startswith("[-") or t.startswith("--")):
+            t, e = t + " " + toks[i + 1][0], toks[i + 1][1]
+            i += 1
+        out.append((t, e))
+        i += 1
+    return out
+
+
 def check_text(decl, text):
     """-> list of (key, message)"""
     app, syn, sections = expected(decl)
@@ -196,12 +215,16 @@ def check_text(decl, text):
         problems.append(("synopsis:missing-or-duplicated",
                          "synopsis lacks %r and has extra %r" % (missing[:6], extra[:6])))
     W = 80 - (8 + len(app))
-    for ln in syn_lines:
-        if len(ln) > 80 and not any(len(u) + 1 > W and u in ln for u in syn) and \
-                not (ln is syn_lines[0] and ln == head):
-            problems.append(("width:unjustified-long-line:synopsis",
-                             "synopsis line of %d columns without an unbreakable unit wider than %d: %r" %
-                             (len(ln), W, ln[:120])))
+    for li, ln in enumerate(syn_lines):
+        if len(ln) <= 80:
+            continue
+        # every unit that ends beyond column 80 must be one that can never fit its text column
+        for tok, end in _tokens(ln, len(head) if li == 0 else 0, merge_metavar=True):
+            if end > 80 and len(tok) + 1 <= W:
+                problems.append(("width:unjustified-long-line:synopsis",
+                                 "synopsis line of %d columns: %r ends at column %d although it fits a %d column "
+                                 "text area: %r" % (len(ln), tok, end, W, ln[:140])))
+                break
     # --- rest
     rest = lines[end:]
     i = 0
@@ -249,14 +272,16 @@ def check_text(decl, text):
                     kind = "lost"
                 problems.append(("entry-words:" + kind,
                                  "entry of --%s: expected words %r, found %r" % (name, words[:12], got[:12])))
-            for ln in block:
-                if len(ln) > 80:
-                    ok = (ln is block[0] and len(prefix) > 80) or any(len(w) + 1 > 40 and w in ln for w in words)
-                    if ok:
-                        continue
-                    problems.append(("width:unjustified-long-line:entry",
-                                     "line of %d columns in the entry of --%s without a word of 40+ chars: %r" %
-                                     (len(ln), name, ln[:120])))
+            for bi, ln in enumerate(block):
+                if len(ln) <= 80:
+                    continue
+                # only words that can never fit the 40 column text area may end beyond column 80
+                for tok, end in _tokens(ln, len(prefix) if bi == 0 else 0):
+                    if end > 80 and len(tok) + 1 <= 40:
+                        problems.append(("width:unjustified-long-line:entry",
+                                         "line of %d columns in the entry of --%s: word %r ends at column %d although "
+                                         "it fits the text area: %r" % (len(ln), name, tok, end, ln[:140])))
+                        break
     if i < len(rest) and any(l.strip() for l in rest[i:]):
         problems.append(("section:extra-text", "unexpected text after the last entry: %r" % rest[i:i + 3]))
     elif rest[i:] not in ([], [""]):
